@@ -390,7 +390,7 @@ def cc_part(ctx, d):
     the proved model, so only the safety predicates on the observed states are evaluated."""
     batches = [(7000000, 300, 400)] if ctx.tier == "quick" else [(7000000, 15000, 400), (8000000, 200, 3000)]
     tot = ev = conf = leaders = 0
-    vev = vsw = vok = venv = vcfgmax = vlearn = 0
+    vev = vsw = vok = venv = vcfgmax = vlearn = vbat = vbatc = vbatl = 0
     viol = None
     bi = 0
     for first, count, nev in batches:
@@ -422,6 +422,9 @@ def cc_part(ctx, d):
                     vok += 1
                     venv += int(kv["envelope"])
                     vlearn += int(kv.get("learners", 0))
+                    vbat += int(kv.get("batches", 0))
+                    vbatc += int(kv.get("batchconfs", 0))
+                    vbatl += int(kv.get("batchconfslate", 0))
                     vcfgmax = max(vcfgmax, int(kv["configs"]))
                 elif t[2] == "FAIL" and dev is None:
                     dev = (t[1], line)
@@ -448,7 +451,7 @@ def cc_part(ctx, d):
                                 with_membership_changes=True, reason=fail_reason(v2), verdict=v2, header=header,
                                 events=shr, trace_tail=trace.splitlines()[-14:],
                                 theorem="(no theorem covers membership change) safety predicates of C15 evaluated on the observed states of the real RawNodes",
-                                note=NOTE + "; CC i code = ProposeConfChange at node i: 100+x add voter x, 110+x remove voter x, 130+10a+b add a / remove b via joint config, 300+x add learner x (a voter is demoted)")
+                                note=NOTE + "; CC i code = ProposeConfChange at node i: 100+x add voter x, 110+x remove voter x, 130+10a+b add a / remove b via joint config, 300+x add learner x (a voter is demoted); PB i codes... = ONE MsgProp with these entries stepped at node i (no-op unless it leads)")
             if viol is None and dev is not None:
                 # the implementation deviates from the membership-change model, no safety predicate failed
                 kk, line = dev
@@ -464,7 +467,7 @@ def cc_part(ctx, d):
                             with_membership_changes=True, reason=fail_reason(v2), verdict=v2, header=header,
                             events=shr, trace_tail=trace.splitlines()[-12:],
                             theorem="C15_check_step_cc_sound: an accepted step is a step of RaftCC.cxstep (the model of raft WITH membership changes); on this schedule the implementation takes a step that is NOT one.  No safety predicate failed on the observed states of this chunk",
-                            note=NOTE + "; CC i code = ProposeConfChange at node i: 100+x add voter x, 110+x remove voter x, 130+10a+b add a / remove b via joint config, 300+x add learner x (a voter is demoted)")
+                            note=NOTE + "; CC i code = ProposeConfChange at node i: 100+x add voter x, 110+x remove voter x, 130+10a+b add a / remove b via joint config, 300+x add learner x (a voter is demoted); PB i codes... = ONE MsgProp with these entries stepped at node i (no-op unless it leads)")
             if viol is None:
                 try:
                     (b / "traces.txt").unlink()
@@ -474,6 +477,7 @@ def cc_part(ctx, d):
     stats = dict(cc_validated_schedules=vok, cc_validated_events=vev, cc_config_switches_validated=vsw,
                  cc_schedules_inside_proved_envelope=venv, cc_max_distinct_configurations_in_a_schedule=vcfgmax,
                  cc_learner_schedules_validated=vlearn,
+                 cc_batched_proposals_validated=vbat, cc_conf_changes_inside_batches=vbatc, cc_conf_changes_at_batch_position_gt0=vbatl,
                  cc_schedules=tot, cc_events=ev, cc_conf_changes_committed=conf, cc_terms_with_a_leader=leaders,
                  cc_scope="; ".join("%d schedules x %d events" % (c, n) for _, c, n in batches))
     return stats, viol, None
@@ -653,7 +657,7 @@ def run(ctx):
             (k, v) for k, v in stats.items() if k.startswith("cc_")) or None,
         prevote_checkquorum_monitoring=dict((k, v) for k, v in stats.items() if k.startswith("pv_")) or None,
         prevote_checkquorum_note="schedules with Config.PreVote = true (pre-vote responses are often kept in flight and re-delivered late; small election timeouts in half), half of them with Config.CheckQuorum too: validated event by event against the PreVote model RaftPV.exec_pv by the extracted check_step_pv (sound w.r.t. pxstep; the safety theorems C15_pv_* cover pxreachable) and counted in evaluations.  CheckQuorum is covered ANGELICALLY: a tick may be the leader's step-down (event PvStepDown) and a delivered MsgVote/MsgPreVote may be ignored altogether (leader lease) - the model does not say when (no election clock), so CheckQuorum's liveness is not checked, its safety is (every choice is a step of pxstep).  A third of the CheckQuorum schedules also call RawNode.TransferLeader: covered angelically too (a leader may send MsgTimeoutNow at any time and may drop a proposal, any node may forward MsgTransferLeader; the receiver of MsgTimeoutNow, if a follower, campaigns for real at once without pre-vote) and validated; the safety predicates are evaluated on the observed states of all schedules (raftrun monitor)",
-        membership_change_note="schedules with ProposeConfChange (add/remove a voter, joint add+remove with automatic leave; applied when committed) are (a) validated event by event against the membership-change model RaftCC.exec_cc by the extracted check_step_cc (exact equality of term/vote/commit/role/lead/log AND of the node's configuration; sound w.r.t. RaftCC.cxstep) — these events are counted in evaluations — and (b) monitored: the safety predicates are evaluated on the observed states.  The SAFETY theorems cover such runs only when the COMMITTED configurations of the run (prefixes of the logs up to the commit index) form a family with pairwise-intersecting quorums (C15_cc_*_partial; evidence key cc_schedules_inside_proved_envelope); the general chain argument of joint consensus is not proved.  A quarter of the schedules also add learners (ConfChangeAddLearnerNode: fresh learners, later promoted by add-voter, and voters demoted): part of the model (tracked, replicated to, never counted in a quorum) and validated like the others",
+        membership_change_note="schedules with ProposeConfChange (add/remove a voter, joint add+remove with automatic leave; applied when committed) are (a) validated event by event against the membership-change model RaftCC.exec_cc by the extracted check_step_cc (exact equality of term/vote/commit/role/lead/log AND of the node's configuration; sound w.r.t. RaftCC.cxstep) — these events are counted in evaluations — and (b) monitored: the safety predicates are evaluated on the observed states.  The SAFETY theorems cover such runs only when the COMMITTED configurations of the run (prefixes of the logs up to the commit index) form a family with pairwise-intersecting quorums (C15_cc_*_partial; evidence key cc_schedules_inside_proved_envelope); the general chain argument of joint consensus is not proved.  A third of the conf changes travel inside BATCHED proposals (event PB: one MsgProp with 2-4 entries stepped at a leader, the conf change at any position among normal entries, sometimes a second conf change in the same batch, which must become an empty entry; further conf changes are proposed at that leader while the leading entries commit and apply one by one - MaxSizePerMsg = one entry and one committed entry per Ready in a third of the schedules); the model's pendingConfIndex for a batch is lastIndex + i + 1 (RaftCC.batch_cc).  A quarter of the schedules also add learners (ConfChangeAddLearnerNode: fresh learners, later promoted by add-voter, and voters demoted): part of the model (tracked, replicated to, never counted in a quorum) and validated like the others",
         correspondence="(D) quorum.{MajorityConfig,JointConfig}.{CommittedIndex,VoteResult} (built from VERIF_REPO working tree) vs extracted Gallina majority_/joint_ functions, compared on every case; (V) raft.RawNode + MemoryStorage (built from VERIF_REPO) vs extracted check_step on every event",
     ))
     lib.write_evidence(PID, ctx.tier, ctx.seed, cov,
